@@ -1,7 +1,25 @@
-//! Verification hook for property C12 (read-only): exposes the private budget of the cache of
-//! encoded sixel images.
+//! Verification hooks for property C12: the private budget of the cache of encoded sixel images,
+//! a handler with a small budget (so that the eviction loop of `draw` can be exercised without
+//! producing 128 MiB of output) and a read-only view of the cache.
+use super::SixelImageHandler;
+use crate::RGBA;
 
 /// `IMAGE_CACHE_SIZE` as the compiler sees it.
 pub fn image_cache_size() -> usize {
     super::IMAGE_CACHE_SIZE
+}
+
+/// `SixelImageHandler::new(bg)` whose cache budget is `cache_size` bytes instead of `IMAGE_CACHE_SIZE`.
+pub fn with_cache_size(bg: Option<RGBA>, cache_size: usize) -> SixelImageHandler {
+    let mut handler = SixelImageHandler::new(bg);
+    handler.verif_cache_size = cache_size;
+    handler
+}
+
+/// `(self.size, [(key, encoded length)] from most to least recently used)`
+pub fn cache_state(handler: &SixelImageHandler) -> (usize, Vec<(u64, usize)>) {
+    (
+        handler.size,
+        handler.imgs.iter().map(|(key, bytes)| (*key, bytes.len())).collect(),
+    )
 }
